@@ -138,7 +138,11 @@ class UCGInitialize(Initialize):
     def _update_parent(children):
 
         size = len(children) // 2
-        parent = [la.norm([children[2 * k], children[2 * k + 1]]) for k in range(size)]
+        # hypot does not underflow when the squares of both amplitudes are subnormal
+        parent = [
+            np.hypot(np.abs(children[2 * k]), np.abs(children[2 * k + 1]))
+            for k in range(size)
+        ]
 
         return parent
 
